@@ -80,14 +80,12 @@ def siteFits (s : String × String × List Nat) : Bool :=
   | _, _ => false
 
 set_option maxRecDepth 100000 in
-/-- **every `ERRORreport*` call of src/express (81 sites on this tree) passes arguments of the number and kinds its format
-    consumes** — except, on this tree, the one report of GROUP_REF_UNEXPECTED_TYPE (expr.c, `EXPresolve_op_group`), whose `%s`
-    has no argument: excluded here, refuted below, repaired by fixes/C20-5.  Drop the exclusion once that is integrated. -/
-theorem C20_report_sites_fit_partial :
-    ∀ s ∈ ReportSites.sites, s.2.1 ≠ "GROUP_REF_UNEXPECTED_TYPE" → siteFits s = true := by
+/-- **every `ERRORreport*` call of src/express (regenerated list, 81 sites on this tree) passes arguments of the number and kinds
+    its format consumes** -/
+theorem C20_report_sites_fit : ∀ s ∈ ReportSites.sites, siteFits s = true := by
   decide
 
-/-- the excluded shape: a report of GROUP_REF_UNEXPECTED_TYPE without argument does not fit "… expression %s" (check-express
+/-- the shape this theorem caught (repaired by fixes/C20-5): a report of GROUP_REF_UNEXPECTED_TYPE without argument does not fit "… expression %s" (check-express
     prints stack garbage: `SELF.l\e2.v` with `l` an aggregate), with the expression's name it does -/
 theorem C20_group_ref_site_witness :
     siteFits ("expr.c", "GROUP_REF_UNEXPECTED_TYPE", []) = false ∧
@@ -332,6 +330,33 @@ theorem C20_switch_local_report (fwd : Bool) (amb : Ambient) (X : String) (ov₁
     (report fwd amb ov₁ ds r).halt = (report fwd amb ov₂ ds r).halt ∧
     filt X (report fwd amb ov₁ ds r).printed = filt X (report fwd amb ov₂ ds r).printed :=
   switch_local_report fwd amb X ov₁ ov₂ h ds r r rfl rfl rfl
+
+/-- **the whole tool run**: with override columns that differ only on warning entries of class `X`, `main` ends with the same
+    exit status, banner and backend decision, and prints the same diagnostics outside class `X` — for every tool and every
+    sequence of parse / resolve / backend diagnostics -/
+theorem C20_switch_local (tool : Tool) (fwd : Bool) (amb : Ambient) (X : String) (ov₁ ov₂ : Overrides)
+    (h : ∀ j, ov₁ j ≠ ov₂ j → classOf j = some X ∧ severityOf j ≤ LibErrors.SEVERITY_WARNING)
+    (p r b : List Diag) :
+    (runMain tool fwd amb ov₁ p r b).status = (runMain tool fwd amb ov₂ p r b).status ∧
+    (runMain tool fwd amb ov₁ p r b).banner = (runMain tool fwd amb ov₂ p r b).banner ∧
+    (runMain tool fwd amb ov₁ p r b).backendRan = (runMain tool fwd amb ov₂ p r b).backendRan ∧
+    filt X (runMain tool fwd amb ov₁ p r b).printed = filt X (runMain tool fwd amb ov₂ p r b).printed :=
+  switch_local_main tool fwd amb X ov₁ ov₂ h p r b
+
+/-- **the whole command line**: `tool … -w X …` and `tool … -i X …` (same other switches around) both crash, both stop with
+    the usage text, or both run — and then with the same verdict and the same diagnostics outside class `X` -/
+theorem C20_switch_local_command (tool : Tool) (guard fwd : Bool) (amb : Ambient) (X : String) (pre post : List Switch)
+    (p r b : List Diag) :
+    match runCmd tool guard fwd amb (pre ++ ⟨.w, X⟩ :: post) p r b, runCmd tool guard fwd amb (pre ++ ⟨.i, X⟩ :: post) p r b with
+    | .ran a, .ran c => a.status = c.status ∧ a.banner = c.banner ∧ a.backendRan = c.backendRan ∧ filt X a.printed = filt X c.printed
+    | .crashed, .crashed => True
+    | .usage, .usage => True
+    | _, _ => False := by
+  have hc := switch_local_config guard X pre post
+  simp only [runCmd]
+  cases h₁ : configure guard (pre ++ ⟨.w, X⟩ :: post) <;> cases h₂ : configure guard (pre ++ ⟨.i, X⟩ :: post) <;>
+    simp only [h₁, h₂] at hc ⊢ <;> try exact hc
+  exact switch_local_main tool fwd amb X _ _ hc p r b
 
 /-- `-w X` / `-i X` for a class that exists does not crash (regenerated guard); on the unguarded code every switch
     does: index 0 of the table is a zero-filled warning entry without a class name -/
